@@ -16,6 +16,7 @@ U = names.to_uuid
 BIG = [0, -1, 1, 2 ** 31 - 1, 2 ** 31, 2 ** 32, 2 ** 63 - 1, -2 ** 63, -2 ** 31]
 STRS = ['', ' ', 'a' * 300, 'a' * 5000, '\u0000', 'x\u0000y', '\n', 'CUSTOM_A\n', '\t', '‮', '\U0001F600',
         '%ff', '../..', 'null', 'NaN', "'; DROP TABLE allocations; --", '\ud800', 'é' * 10, '0', '-1',
+        '²', '①', '٣', '３', '1²', 'Ⅳ', '½', '​', 'İ', 'ß', 'ǅ',
         '{}', '[]', 'CUSTOM_', 'custom_lower', 'VCPU', 'MISC_SHARES_VIA_AGGREGATE', 'in:', '!', ',', ':', '\\']
 
 
@@ -231,7 +232,20 @@ def mutate(rnd, seed):
             i = rnd.randrange(len(query))
             op = rnd.choice(['value', 'value', 'dup', 'drop', 'key', 'conflict'])
             key, val = query[i]
-            if op == 'value':
+            if op == 'value' and rnd.random() < 0.35:
+                # character-level damage to the valid value: look-alike digits,
+                # signs, separators, case, invisible characters
+                sub = {'0': ['０', '٠', '⁰'], '1': ['１', '١', '¹', '①', ' 1', '+1', '1_0', '0x1', '1e1', '1.0'],
+                       '2': ['２', '²', '٢'], '5': ['５', '⑤', '٥'], ':': ['：', '::', ': ', ' :'],
+                       ',': ['，', ',,', ', '], '-': ['−', '–'], 'a': ['A', 'а'], 'e': ['E', 'е']}
+                cand = [j for j, ch in enumerate(val) if ch in sub]
+                if cand:
+                    j = rnd.choice(cand)
+                    val2 = val[:j] + rnd.choice(sub[val[j]]) + val[j + 1:]
+                else:
+                    val2 = val + rnd.choice(['\u200b', ' ', '\t', '²'])
+                query[i] = (key, val2)
+            elif op == 'value':
                 query[i] = (key, rnd.choice(STRS + [str(x) for x in BIG] + [val + ',', val + ':', 'in:' + val, '!' + val,
                                                                            val.replace(':', '::'), U('p11'), 'VCPU:0', 'VCPU:-1',
                                                                            'VCPU:1.5', 'VCPU:9223372036854775807', 'NOSUCH:1', 'in:', '!in:']))
